@@ -38,6 +38,8 @@ class Result:
     nontrivial: bool = False
     info: Any = None  # optional observation to store with a replay file
     expensive: bool = False  # the failing run was very slow (e.g. a hang judged by its bound): shrink very little
+    weight: int = 1  # number of executions this result stands for (a fuzzing campaign reports many)
+    extra_hashes: Any = None  # hashes of further distinct non-trivial cases covered by this result
 
     def fail(self, clause: str, message: str, data: Any = None):
         self.violations.append(Viol(clause, message, data))
